@@ -4,12 +4,26 @@ From DS Require Import Base.Prelude Spec.AslReplySpec.
 
 Inductive rcase := RCase (request reply : list Z).
 
-(* request = complete frame: start byte, then (len<<5 | idx) for a unicast *)
+(* request = complete frame: start byte, (len<<5 | idx), command code, ... (only a unicast is ever
+   answered).  Besides decoding and echoing, a data reply must have the payload width of the
+   command it answers: version 1, position 4, status 3, driver type 1. *)
+Definition payload_ok (code : Z) (d : dreply) : bool :=
+  match d with
+  | DAck | DNakR => true
+  | DData _ _ p =>
+      match code with
+      | 16 | 20 => (length p =? 1)%nat
+      | 18 => (length p =? 4)%nat
+      | 19 => (length p =? 3)%nat
+      | _ => false
+      end
+  end.
+
 Definition ok_reply (c : rcase) : bool :=
   match c with
-  | RCase (start :: hdr :: _) reply =>
+  | RCase (start :: hdr :: code :: _) reply =>
       match usd_decode reply with
-      | Some d => echoesb start (hdr mod 32) d
+      | Some d => echoesb start (hdr mod 32) d && payload_ok code d && negb (hdr =? 0)
       | None => false
       end
   | _ => false
